@@ -10,14 +10,14 @@ import (
 )
 
 const (
-	rN        = 2048
-	rF        = 60
-	rThresh   = 2
-	rNIL      = rN
-	rNChar    = 256 - rThresh + rF
-	rT        = rNChar*2 - 1
-	rR        = rT - 1
-	rMaxFreq  = 0x8000
+	rN       = 2048
+	rF       = 60
+	rThresh  = 2
+	rNIL     = rN
+	rNChar   = 256 - rThresh + rF
+	rT       = rNChar*2 - 1
+	rR       = rT - 1
+	rMaxFreq = 0x8000
 )
 
 // position code: canonical prefix code with these many codes per length
@@ -260,14 +260,14 @@ func minInt(a, b int) int {
 // ---------------- encoder ----------------
 
 type enc struct {
-	h               huff
-	text            [rN + rF - 1]byte
-	lson, dad       [rN + 1]int
-	rson            [rN + 257]int
+	h                  huff
+	text               [rN + rF - 1]byte
+	lson, dad          [rN + 1]int
+	rson               [rN + 257]int
 	matchPos, matchLen int
-	out             bytes.Buffer
-	putbuf          uint32
-	putlen          uint
+	out                bytes.Buffer
+	putbuf             uint32
+	putlen             uint
 }
 
 func (e *enc) initTree() {
@@ -505,4 +505,3 @@ func EncodeB2(in []byte) []byte {
 	out.Write(raw)
 	return out.Bytes()
 }
-
